@@ -314,7 +314,9 @@ class SmallSet {
   void insert(InputIt first, InputIt last) {
     // Insert elements in vector as long as we stay small
     while (isSmall() && first != last) {
-      insert_small(*first);
+      // As std::set does, build the element first when the range holds values of another type:
+      // such a value must not be compared as is with the elements (the compare type may be transparent)
+      insert_small(ToValueType(*first));
       ++first;
     }
     // Insert remaining elements (if any) in the standard set if we became large
@@ -666,6 +668,15 @@ class SmallSet {
   template <class I>
   static inline SetIt ToSetIt(I it, typename std::enable_if<!std::is_same<I, const T *>::value>::type * = 0) {
     return it.toSetIt();
+  }
+
+  template <class V, typename std::enable_if<std::is_same<typename std::decay<V>::type, T>::value, bool>::type = true>
+  static V &&ToValueType(V &&v) {
+    return std::forward<V>(v);
+  }
+  template <class V, typename std::enable_if<!std::is_same<typename std::decay<V>::type, T>::value, bool>::type = true>
+  static T ToValueType(V &&v) {
+    return T(std::forward<V>(v));
   }
 
   template <class V>
